@@ -28,7 +28,7 @@ def run(sub):
             for (pc, goal, meta, dec) in insts:
                 v = smt.discharge(pc, goal)
                 flag = {'unsat': 'ok  ', 'sat': 'FAIL', 'unknown': '????'}[v.status]
-                print('  %s %s  [%s %.2fs] dec=%s' % (flag, name, v.backend, v.time, dec))
+                print('  %s %s  [%s %.2fs] dec[%d]' % (flag, name, v.backend, v.time, len(dec)))
                 if v.status != 'unsat':
                     print('       meta', meta)
                     print('       goal', str(goal)[:1500])
